@@ -282,8 +282,28 @@ func c09Regress(c *hx.Ctx) []*scenario {
 	return out
 }
 
+// the pinger with a real (1 s) keep-alive: wall-clock decides when it fires, not what the model accepts
+func c09Pinger(c *hx.Ctx) []*scenario {
+	cfg := cfgT{validate: true, keepalive: true, callback: true, kaShort: true}
+	waitDie := step{op: "waitlog", name: " cberr", n: 6}
+	out := []*scenario{
+		{name: "pinger/missing-pong", steps: cat(opening(cfg, 1, false), []step{waitDie})},
+	}
+	if c.Thorough() {
+		out = append(out,
+			&scenario{name: "pinger/pong-then-missing", steps: cat(opening(cfg, 1, false), []step{{op: "bpong", n: 1}, waitDie})},
+			// observation: a PINGRESP nobody asked for wraps the uint8 counter; the pinger dies at its first turn
+			&scenario{name: "pinger/unsolicited-pong", steps: cat(opening(cfg, 1, false), []step{sB(&packet.Pingresp{}), sIdle(), waitDie})},
+			&scenario{name: "pinger/traffic-delays-ping", steps: cat(opening(cfg, 1, false),
+				[]step{sPub(2, 0), sPub(3, 0), {op: "bpong", n: 1}, waitDie})},
+		)
+	}
+	return out
+}
+
 func c09Scenarios(c *hx.Ctx) []*scenario {
 	var out []*scenario
+	out = append(out, c09Pinger(c)...)
 	out = append(out, c09Basic()...)
 	out = append(out, c09Regress(c)...)
 	out = append(out, c09Connack()...)
@@ -483,5 +503,67 @@ func c10Scenarios(c *hx.Ctx) []*scenario {
 	var out []*scenario
 	out = append(out, c10Basic()...)
 	out = append(out, c10Enumerate(c)...)
+	return out
+}
+
+/* ---------------------------------------------------------------- C15 (client side): arrival order */
+
+func c15Scenarios(c *hx.Ctx) []*scenario {
+	var out []*scenario
+	modes := []struct {
+		tag string
+		cfg cfgT
+	}{
+		{"default", cfgT{validate: true, callback: true}},
+		{"early", cfgT{validate: true, callback: true, early: true}},
+		{"nocb", cfgT{validate: true}},
+		{"clean", cfgT{clean: true, validate: true, callback: true}},
+	}
+	// bursts: several packets are handed to the client at once, the processor must deliver in arrival order
+	bursts := [][]packet.Generic{
+		{inPub(0, 0, false), inPub(1, 1, false), inPub(0, 0, false), inPub(2, 1, false)},
+		{inPub(1, 2, false), inPub(2, 2, false), inPub(3, 1, false), &packet.Pubrel{ID: 2}, &packet.Pubrel{ID: 1}},
+		{inPub(1, 1, false), inPub(1, 1, true), inPub(2, 2, false), inPub(2, 2, true), &packet.Pubrel{ID: 2}, inPub(0, 0, false)},
+		{inPub(1, 2, false), &packet.Pubrel{ID: 1}, inPub(1, 2, false), &packet.Pubrel{ID: 1}, &packet.Pingresp{}, inPub(4, 1, false)},
+	}
+	for _, m := range modes {
+		for bi, b := range bursts {
+			steps := opening(m.cfg, 1, false)
+			for _, p := range b {
+				steps = append(steps, sB(p))
+			}
+			steps = append(steps, sIdle(), sDisc(2, false))
+			out = append(out, &scenario{name: fmt.Sprintf("burst/%s-%d", m.tag, bi), steps: steps})
+			// the same with a callback error in the middle
+			if m.cfg.callback {
+				out = append(out, &scenario{name: fmt.Sprintf("burst/%s-%d-cberr", m.tag, bi), failAt: map[string]int{"cb": 2}, steps: steps})
+			}
+		}
+	}
+	// and the one-at-a-time scripts of C10 up to depth 2
+	var rec func(prefix []bact, d int)
+	al := c10Alphabet(2, false)
+	var scripts [][]bact
+	rec = func(prefix []bact, d int) {
+		if len(prefix) > 0 {
+			scripts = append(scripts, append([]bact(nil), prefix...))
+		}
+		if d == 0 {
+			return
+		}
+		for _, a := range al {
+			rec(append(prefix, a), d-1)
+		}
+	}
+	depth := 2
+	if c.Thorough() {
+		depth = 3
+	}
+	rec(nil, depth)
+	for _, m := range modes {
+		for _, sc := range scripts {
+			out = append(out, &scenario{name: "seq/" + m.tag + "-" + c10Name(sc), steps: c10Script(m.cfg, sc)})
+		}
+	}
 	return out
 }
